@@ -58,7 +58,9 @@ INIT_PY = ["from pkg.a import f as f", "from pkg.a import K", "from pkg._priv im
 INTERNAL_PY = ["__all__ = []", "DEFAULT = 1", "def ihelper(a, b): ...", "class Impl:\n    def run(self): ..."]
 # a public module whose `__all__` is assembled from a private sibling's: the sibling's names are public as pkg.api.<name> only
 API_PY = ["from pkg import _base", "from pkg._base import *", '__all__ = _base.__all__ + ["g"]', "def g(): ..."]
-BASE_PY = ['__all__ = ["bf", "LIMIT"]', "def bf(a): ...", "LIMIT = 1", "def unlisted(): ..."]
+# (the private sibling's own list is assembled from a third module's: pkg.api <- pkg._base <- pkg._core)
+BASE_PY = ["from pkg import _core", "from pkg._core import *", '__all__ = _core.__all__ + ["bf", "LIMIT"]', "def bf(a): ...", "LIMIT = 1", "def unlisted(): ..."]
+CORE_PY = ['__all__ = ["cf"]', "def cf(a): ...", "def core_unlisted(): ..."]
 # the lazy-import layout: names listed in __all__ that start with an underscore (public all the same: __all__ decides), and names imported under
 # `if TYPE_CHECKING:` only (served at runtime by a module-level __getattr__) that __all__ lists too
 LAZY_PY = ["from typing import TYPE_CHECKING", "if TYPE_CHECKING:\n    from pkg._models import Model\n    from pkg._models import Field", '__all__ = ["run", "_hook", "_Registry", "Model", "Field"]',
@@ -77,6 +79,7 @@ PUBLIC = {
     "pkg.a.f": {"pkg.a.f", "pkg.f"}, "pkg.a.K": {"pkg.a.K", "pkg.K"}, "pkg.a.K.attr": {"pkg.a.K.attr", "pkg.K.attr", "pkg.Sub.attr"},
     "pkg.a.K.m": {"pkg.a.K.m", "pkg.K.m", "pkg.Sub.m"}, "pkg.a.Base.bm": {"pkg.a.Base.bm", "pkg.a.K.bm", "pkg.K.bm", "pkg.Sub.bm", "pkg.a.L.bm"},
     "pkg.pub_helper": {"pkg.pub_helper"}, "pkg._base.bf": {"pkg.api.bf"}, "pkg._base.LIMIT": {"pkg.api.LIMIT"}, "pkg.a.Base.shared": {"pkg.a.Base.shared", "pkg.a.K.shared", "pkg.K.shared", "pkg.Sub.shared", "pkg.a.L.shared"}, "pkg.a.L": {"pkg.a.L"}, "pkg.a.L.lm": {"pkg.a.L.lm"}, "pkg.a.L.lattr": {"pkg.a.L.lattr"},
+    "pkg._core.cf": {"pkg.api.cf"},
     "pkg.lazy._hook": {"pkg.lazy._hook"}, "pkg.lazy._Registry": {"pkg.lazy._Registry"}, "pkg.lazy.Model": {"pkg.lazy.Model"}, "pkg.lazy.Field": {"pkg.lazy.Field"},
     "pkg.a.f@definition": {"pkg.a.f"}, "pkg.a.Base.bm@definition": {"pkg.a.Base.bm"},
     "pkg.a.Base": {"pkg.a.Base"}, "pkg.a._PB.pbm": {"pkg.a.Base.pbm", "pkg.a.K.pbm", "pkg.K.pbm", "pkg.Sub.pbm", "pkg.a.L.pbm"}, "pkg.a.w": {"pkg.a.w"}, "pkg.VALUE": {"pkg.VALUE"}, "pkg.Sub": {"pkg.Sub"}, "pkg.a.Base.battr": {"pkg.a.Base.battr", "pkg.a.K.battr", "pkg.K.battr", "pkg.Sub.battr", "pkg.a.L.battr"},
@@ -121,6 +124,8 @@ def catalogue():
     edit("remove-unlisted-of-private-sibling", True, B, lambda s: [x for x in s if not x.startswith("def unlisted")])
     edit("remove-name-exported-through-assembled-all", False, None, lambda fs: {**fs, "pkg/_base.py": [x.replace('"bf", ', "") for x in fs["pkg/_base.py"] if not x.startswith("def bf")]}, ("pkg._base.bf", "removed", None))
     edit("change-value-exported-through-assembled-all", False, B, lambda s: _sub(s, "LIMIT = 1", "LIMIT = 2"), ("pkg._base.LIMIT", "value was changed", None))
+    edit("remove-name-exported-through-three-module-all", False, None, lambda fs: {**fs, "pkg/_core.py": ['__all__ = []'] + [x for x in fs["pkg/_core.py"][1:] if not x.startswith("def cf")]} if any(x.startswith("def cf") for x in fs["pkg/_core.py"]) else fs, ("pkg._core.cf", "removed", None))
+    edit("remove-unlisted-of-third-module", True, "pkg/_core.py", lambda s: [x for x in s if not x.startswith("def core_unlisted")])
     N = "pkg/internal.py"
     edit("change-value-in-module-exporting-nothing", True, N, lambda s: _sub(s, "DEFAULT = 1", "DEFAULT = 2"))
     edit("rekind-in-module-exporting-nothing", True, N, lambda s: _sub(s, "class Impl:\n    def run(self): ...", "Impl = 1"))
@@ -190,7 +195,7 @@ def base_files(variant):
     v = VARIANTS[variant]
     init = [s.replace("{EXTRA_ALL}", v["all"]) for s in INIT_PY] + v["init_extra"]
     return {"pkg/__init__.py": init, "pkg/a.py": A_PY + v["a_extra"], "pkg/_priv.py": list(PRIV_PY), "pkg/internal.py": list(INTERNAL_PY), "pkg/api.py": list(API_PY), "pkg/_base.py": list(BASE_PY),
-            "pkg/lazy.py": list(LAZY_PY), "pkg/_models.py": list(MODELS_PY)}
+            "pkg/lazy.py": list(LAZY_PY), "pkg/_models.py": list(MODELS_PY), "pkg/_core.py": list(CORE_PY)}
 
 
 def apply_script(variant, script):
@@ -286,7 +291,7 @@ def judge(griffe, variant, script, old_pkg, new_pkg):
                 continue
             paths = PUBLIC[target] if e["name"] != "drop-reexport" else {"pkg.f"}
             hit = [s for s in seen if s[1] in paths and kind_sub.lower() in s[0].lower()]
-            private_def = {"pkg.pub_helper": "pkg._priv.pub_helper", "pkg._base.bf": "pkg._base.bf", "pkg._base.LIMIT": "pkg._base.LIMIT", "pkg.lazy.Field": "pkg._models.Field"}.get(target)
+            private_def = {"pkg.pub_helper": "pkg._priv.pub_helper", "pkg._base.bf": "pkg._base.bf", "pkg._base.LIMIT": "pkg._base.LIMIT", "pkg.lazy.Field": "pkg._models.Field", "pkg._core.cf": "pkg._core.cf"}.get(target)
             if not hit and private_def and any(s[1] == private_def and kind_sub.lower() in s[0].lower() for s in seen):
                 # reported, but against the canonical path inside the private module instead of a public path of the object
                 viols.append((f"wrong-path/{e['name']}", f"edit {e['name']} on {target}: the '{kind_sub}' breakage is reported at {private_def}, none of the object's public paths {sorted(paths)}"))
